@@ -2,7 +2,7 @@ from typing import List, Optional
 
 from hexital.analysis import utils
 from hexital.core.candle import Candle
-from hexital.utils.indexing import validate_index
+from hexital.utils.indexing import absindex
 
 
 def doji(
@@ -23,7 +23,7 @@ def doji(
     Returns:
         bool: If The given Candle is Doji bool or 1/2
     """
-    index = validate_index(index, len(candles), -1)
+    index = absindex(index, len(candles))
     if index is None:
         return False
 
@@ -43,7 +43,7 @@ def dojistar(
     lookback: Optional[int] = None,
     index: Optional[int] = None,
 ) -> bool:
-    index = validate_index(index, len(candles), -1)
+    index = absindex(index, len(candles))
     if index is None:
         return False
 
@@ -75,7 +75,7 @@ def hammer(
     lookback: Optional[int] = None,
     index: Optional[int] = None,
 ) -> bool | int:
-    index = validate_index(index, len(candles), -1)
+    index = absindex(index, len(candles))
     if index is None:
         return False
 
@@ -106,7 +106,7 @@ def inverted_hammer(
     lookback: Optional[int] = None,
     index: Optional[int] = None,
 ) -> bool | int:
-    index = validate_index(index, len(candles), -1)
+    index = absindex(index, len(candles))
     if index is None:
         return False
 
